@@ -63,6 +63,9 @@ func (r *repair) search() (int, uint64, *DbState) {
 		var done bool
 		offsets, done = scnr.getUpTo(i)
 		if done {
+			if len(offsets) == 0 {
+				return 0, 0, nil // no states at all
+			}
 			i = len(offsets) - 1
 			if i == prev {
 				return 0, 0, nil // no more states
